@@ -34,6 +34,7 @@ fn main() {
         "bw_zoom" => { run = bw::run_zoom; gen = bw::gen_zoom; }
         "merge" => { run = bw::run_merge; gen = bw::gen_merge; }
         "merge_groups" => { run = bw::run_merge_groups; gen = bw::gen_merge_groups; }
+        "bw_runs" => { run = bw::run_runs; gen = bw::gen_runs; }
         "merge_many" => { run = bw::run_merge_many; gen = bw::gen_merge_many; }
         "zoom_dir" => { run = bw::run_zoom_dir; gen = bw::gen_zoom_dir; }
         "zoom_auto" => { run = bw::run_zoom_auto; gen = bw::gen_zoom_auto; }
